@@ -60,6 +60,8 @@ var hostile = [][]byte{
 	// refused entry must not touch)
 	[]byte(".\x1b(B./sibling.txt"), []byte(".\x1b(B./dest-sibling/s.txt"), []byte(".\x1b(B./dest-sibling"), []byte("\x80/.\x1b(B./.\x1b(B./sibling.txt"),
 	[]byte(".\x1b(J./sibling.txt"), []byte("x1/.\x1b(B./.\x1b(B./dest-sibling/s.txt"),
+	// ... and names that leave the destination and come back into it through the very same directories: they resolve inside
+	[]byte("../dest/"), []byte("../dest"), []byte("../../work/dest/"), []byte("x/../../dest/re"), []byte("../../work/dest-sibling/"), []byte("../../work2/dest/"),
 	[]byte("../d\xc3\xa9 st \xe6\x97\xa5\xe6\x9c\xac-sibling/"), []byte(".\x1b(B./d\xc3\xa9 st \xe6\x97\xa5\xe6\x9c\xac-sibling/"),
 }
 
@@ -149,21 +151,33 @@ func genArchive(t *rapid.T, label string, depth int) (zipgen.Archive, bool) {
 
 // resolve folds an entry name below a base (list of components below dest): returns the resulting
 // components, or escaped=true if the name leaves the destination, as filepath.Join documents.
+// destParts: the components of the absolute destination path (set by the check). Resolution is lexical, as path cleaning
+// is: a name that leaves the destination and comes back into it ("../dest/x", "../other/../dest/x" for a destination called
+// dest) resolves inside it and is not an entry "that would resolve outside the destination".
+var destParts []string
+
 func resolve(base []string, name []byte) (out []string, escaped bool) {
-	out = append(out, base...)
+	stack := append(append([]string{}, destParts...), base...)
 	for _, c := range strings.Split(string(name), "/") {
 		switch c {
 		case "", ".":
 		case "..":
-			if len(out) == 0 {
-				return nil, true
+			if len(stack) > 0 {
+				stack = stack[:len(stack)-1]
 			}
-			out = out[:len(out)-1]
 		default:
-			out = append(out, c)
+			stack = append(stack, c)
 		}
 	}
-	return out, false
+	if len(stack) < len(destParts) {
+		return nil, true
+	}
+	for i, p := range destParts {
+		if stack[i] != p {
+			return nil, true
+		}
+	}
+	return append([]string{}, stack[len(destParts):]...), false
 }
 
 var zipExts = []string{".zip", ".zipx", ".7z", ".s7z", ".gz", ".tar.gz", ".tgz", ".xz", ".lz", ".lzma", ".rz", ".pack", ".z", ".jar"}
@@ -370,6 +384,12 @@ func checkCase(t ev.T, test string, c Case) {
 	// (c) verdict
 	seen := map[string]string{}
 	clean := true
+	destParts = nil
+	for _, p := range strings.Split(filepath.Clean(destAbs), string(filepath.Separator)) {
+		if p != "" {
+			destParts = append(destParts, p)
+		}
+	}
 	esc := wouldEscape(&c.Archive, nil, c.Limits == "recursive", seen, &clean)
 	if esc {
 		if uerr == nil {
